@@ -101,7 +101,9 @@ class Fields(object):
         r = self.rng
         if wellformed:
             return "%s %s %s" % (r.choice(MODESTR), r.choice(ACCTS), text_of(r, 30, False))
-        return r.choice(["plainpassword", "acct pass", "x acct pass", "+x", "+x acctonly", "+!", "secret word here", "-", "+x  ", "x+ a b"])
+        # (a mode prefix that asks for +! followed by ONE word is no login either: nothing about the client changes, no hold is taken)
+        return r.choice(["plainpassword", "acct pass", "x acct pass", "+x", "+x acctonly", "+!", "secret word here", "-", "+x  ", "x+ a b",
+                         "+! acctonly", "+x! acctonly", "+!x  acctonly ", "-x+! acctonly", "+!-! acctonly", "+! "])
 
     def token(self):
         return name_of(self.rng, [4, 8, 16], "abcdefghijklmnopqrstuvwxyz0123456789")
